@@ -98,7 +98,8 @@ void radix_history(pbt::Source& src, IRadix& h, unsigned BITS, unsigned RBITS, b
         if (m != limit && (cleared || extreme(m))) nt = true;
         if (m != limit) pbt::label("frontier_advanced");
         if ((m ^ limit) >> RBITS) pbt::label("frontier_advanced_beyond_row0");
-        if (extreme(m)) pbt::label("extracted_extreme_key");
+        if (m == 0) pbt::label("extracted_type_min");
+        if (m == RMAX) pbt::label("extracted_type_max");
         limit = m;
     };
     //! remove everything stored under key m; `out` = what the heap handed back for it
@@ -137,7 +138,8 @@ void radix_history(pbt::Source& src, IRadix& h, unsigned BITS, unsigned RBITS, b
             h.insert(how, r, id);
             live.insert(RV(r, id));
             pbt::label(HOW[how]);
-            if (extreme(r)) pbt::label("pushed_extreme_key");
+            if (r == 0) pbt::label("pushed_type_min");
+            if (r == RMAX) pbt::label("pushed_type_max");
             if (r == limit) pbt::label("pushed_at_frontier");
             break;
         }
